@@ -143,7 +143,7 @@ func (e *Enc) callWith(fr *frame, st *State, c *ssa.CallCommon, fnv Value, args 
 		// in-repo function without contract: effects unknown, checked on its
 		// own under precondition true.
 		keys, all, ghosts := e.v.funcWrites(e, fn)
-		e.havocKeys2(st, keys, all, ghosts, e.v.funcWriteSet(e, fn).closes)
+		e.havocInferred(st, fn, keys, all, ghosts, e.v.funcWriteSet(e, fn).closes)
 		e.v.uncontracted[key] = true
 		return e.freshResult(st, prefix, rt)
 	}
@@ -179,6 +179,29 @@ func (e *Enc) havocKeys2(st *State, keys []string, all, ghosts, closes bool) {
 			st.ghost[k] = e.q.fresh("gh_"+k, e.q.ghostSort(k))
 		}
 	}
+}
+
+// havocInferred applies the inferred write set of an in-repo callee. If the
+// callee forgets "everything" only because it blocks (no code of unknown
+// effect is involved), state owned by the component the current function runs
+// on is written by nobody but the callee itself: owned arrays outside its key
+// set survive (ownership is a checked structural obligation).
+func (e *Enc) havocInferred(st *State, fn *ssa.Function, keys []string, all, ghosts, closes bool) {
+	ws := e.v.funcWriteSet(e, fn)
+	owned := e.ownedKeyFilter()
+	if all && !ws.unknown && owned != nil {
+		kset := map[string]bool{}
+		for _, k := range keys {
+			kset[k] = true
+		}
+		st.havocAll(e.localRefs, func(key string) bool { return owned(key) && !kset[key] })
+		for _, k := range []string{ghostSendCount, ghostClosed} {
+			e.ghostGet(st, k)
+			st.ghost[k] = e.q.fresh("gh_"+k, e.q.ghostSort(k))
+		}
+		return
+	}
+	e.havocKeys2(st, keys, all, ghosts, closes)
 }
 
 // unknownCall havocs everything an unknown callee could reach.
@@ -400,6 +423,8 @@ func (e *Enc) applyContract(fr *frame, st *State, con *Contract, fn *ssa.Functio
 	var inferred func() ([]string, bool, bool)
 	if !con.HasMod {
 		inferred = func() ([]string, bool, bool) { return e.v.funcWrites(e, fn) }
+		e.inferredFn = fn
+		defer func() { e.inferredFn = nil }()
 	}
 	e.curSig = fn.Signature
 	defer func() { e.curSig = nil }()
@@ -417,7 +442,11 @@ func (e *Enc) applyClauses(fr *frame, st *State, con *Contract, pkg *types.Packa
 		e.havocModifies(env, st, con)
 	} else if inferred != nil {
 		keys, all, ghosts := inferred()
-		e.havocKeys(st, keys, all, ghosts)
+		if e.inferredFn != nil {
+			e.havocInferred(st, e.inferredFn, keys, all, ghosts, all)
+		} else {
+			e.havocKeys(st, keys, all, ghosts)
+		}
 	}
 	for _, cc := range con.CallCounts {
 		k := callCountKey(cc.Callee)
